@@ -6,7 +6,7 @@
 //!    boundaries found by the harness's OWN lexer (gen::c14_layout). compile(P') must have the verdict of
 //!    compile(P) and, when accepted, the identical Ok payload (source bytes, stages, metadata, pipeline state).
 //!    Never touched, as the property says: directly after `<`/`>`, between a macro's name and `(` in a #define;
-//!    and, by the rules of the language, no real newline inside a directive line, only blanks before a `#`.
+//!    and, by the rules of the language, no real newline inside a directive line (a splice or a block comment may precede the `#`).
 //! 2. position monitor: k physical lines of trivia inserted at a logical line start move every position the
 //!    diagnostic mentions on or after that line (same file) by exactly k and leave everything else - message,
 //!    file, column, echoed source line - unchanged. For generated programs with exactly one injected error the
@@ -33,7 +33,7 @@ pub fn def() -> CheckDef {
                repeated #include of in-memory files, and generated programs with exactly one injected error (28 kinds: type, parse, lexer, \
                preprocessor, inside macro bodies/arguments; in the entry file or an included file; also on a last line without newline). \
                trivia variants: insertions at boundaries of the harness's own lexer, single-kind or mixed, sparse to every boundary; \
-               never after `<`/`>`, never between name and `(` of a #define, no newline inside a directive line, only blanks before `#`. \
+               never after `<`/`>`, never between name and `(` of a #define, no newline inside a directive line; blanks, block comments and splices before `#`. \
                Generator avoidances for recorded findings: no newline between a macro name and the `(` of its invocation (KF-C14-1), \
                none inside an empty macro argument list (KF-C14-2), no injected error on a token made by ## (KF-C14-3). \
                position variants: k in 0..=50 physical lines (blank, blank with spaces, //, /* */, multi-line comments, spliced \
@@ -157,17 +157,12 @@ fn fits(text: &str, allow: u8) -> bool {
     let pieces = lay::lex(text);
     let n = pieces.len();
     if allow & lay::A_LINES_THEN_SPACE != 0 {
-        // whole lines of trivia, then blanks
-        let last_nl = pieces.iter().rposition(|p| p.kind == lay::PK::Newline);
+        // whole lines of trivia, then blanks, block comments and splices (a `//` comment needs its newline)
         for (i, p) in pieces.iter().enumerate() {
             match p.kind {
                 lay::PK::Tok | lay::PK::OpenBlockComment => return false,
-                lay::PK::Space | lay::PK::Newline => {}
-                _ => {
-                    if last_nl.map(|l| i > l).unwrap_or(true) {
-                        return false;
-                    }
-                }
+                lay::PK::LineComment if i + 1 == n => return false,
+                _ => {}
             }
         }
         return true;
